@@ -110,8 +110,8 @@ Fixpoint dec_unprotected (fuel : nat) (u : wire) {struct fuel} : res (list gv) :
              | Unm => Unm
              | Panic => Panic
              | Rej _ =>
-                 match skip_tags v with
-                 | Some (WArr _ ((_ :: _) as l)) =>
+                 match v with                  (* a list is an array: a tagged item is refused (fixed, F10) *)
+                 | WArr _ ((_ :: _) as l) =>
                      (* whatever fails inside, the caller sees one generic error *)
                      match (fix go (l : list wire) : res (list gv) :=
                               match l with
